@@ -311,6 +311,44 @@ func runC02(r *rep.Report, thorough bool) error {
 			r.Hist("round-trip-theorem:program-inside-the-fragment")
 		} else {
 			r.Hist("round-trip-theorem:program-outside-the-fragment")
+			if why, ok := rt["why"].([]any); ok {
+				for _, w := range why {
+					r.Hist("round-trip-theorem:outside-because:" + fmt.Sprint(w))
+				}
+			}
+		}
+		// the larger fragment (Props/C02Nil.lean): equality modulo nil, omitempty, []byte, wrapped
+		// named slices / maps of unions
+		inFragN, _ := rt["inFragmentN"].(bool)
+		if inFragN {
+			r.Hist("round-trip-mod-nil-theorem:program-inside-the-fragment")
+		} else {
+			r.Hist("round-trip-mod-nil-theorem:program-outside-the-fragment")
+			if why, ok := rt["whyN"].([]any); ok {
+				for _, w := range why {
+					r.Hist("round-trip-mod-nil-theorem:outside-because:" + fmt.Sprint(w))
+				}
+			}
+		}
+		if rv, ok := rt["values"].([]any); ok && inFragN {
+			for i, x := range rv {
+				m, _ := x.(map[string]any)
+				if typed, _ := m["wt"].(bool); !typed {
+					r.Hist("round-trip-mod-nil-theorem:value-not-strictly-typed")
+					continue
+				}
+				ln := lns[i]
+				r.Hist("round-trip-mod-nil-theorem:value-covered")
+				in := map[string]any{"case": id, "type": ln.Type, "value": ln.Val, "doc": ln.Doc, "sources": a.Case.Sources()}
+				if same, _ := m["sameModNil"].(bool); !same {
+					r.Disagree(rep.Disagreement{Tie: "c02.round-trip-mod-nil-theorem-instance", Input: in,
+						Model: "theorem C02_round_trip_mod_nil: decode (encode v) = some v' with v' equal to v modulo nil", Impl: "the instance evaluates to something else (the driver is not the proved model)"})
+				}
+				if !ln.RoundTrip || ln.UnmarshalErr != "" || ln.Panic != "" {
+					r.Disagree(rep.Disagreement{Tie: "c02.round-trip-mod-nil-theorem-vs-real-round-trip", Input: in,
+						Model: "theorem C02_round_trip_mod_nil: a strictly typed value of a program in the fragment is read back, modulo nil, from its document", Impl: "json.Unmarshal(json.Marshal(v)) with the generated methods does not: " + ln.UnmarshalErr + ln.Panic})
+				}
+			}
 		}
 		if rv, ok := rt["values"].([]any); ok && inFrag {
 			for i, x := range rv {
